@@ -80,6 +80,8 @@ type GenOpts struct {
 	NearMiss bool
 	// CRLF: the setup file (and its variants) has CRLF line terminators
 	CRLF bool
+	// GetterTwin: forces the getter twins across files
+	GetterTwin bool
 }
 
 var RejectFamilies = []string{
@@ -129,13 +131,20 @@ func GenWorld(r *Rng, opts GenOpts, variantCount int) *WorldSpec {
 	if opts.Surroundings > 0 {
 		surroundings = opts.Surroundings - 1
 	}
-	// near-miss names: one side of a struct pair has Note, the other NoteA and
-	// NoteB (same type): no match in either direction, and two equally close
+	// near-miss names: one side of a struct pair has Memo, the other MemoA and
+	// MemoB (same type): no match in either direction, and two equally close
 	// candidates for whoever starts guessing what the user meant
 	nearMiss := !opts.Clean && (opts.NearMiss || sr.Chance(1, 3))
 	if sr.Chance(1, 10) {
 		opts.CRLF = true
 	}
+	// getter twins: every data struct has a getter for a field that only the other
+	// side has (domain: Label(), model: Caption()), and a second getter differing
+	// from it only in letter case, declared in ANOTHER file of the package that
+	// sorts before or after the first; half of the methods then get :getter and
+	// :case:off together, so that both getters fit the field
+	getterTwin := !opts.Clean && (opts.GetterTwin || sr.Chance(1, 3))
+	twinFile := Pick(sr, []string{"aa_deprecated.go", "zz_deprecated.go"})
 	// --- data packages
 	nStructs := r.Range(1, 3)
 	names := append([]string(nil), structNames...)
@@ -212,11 +221,21 @@ func GenWorld(r *Rng, opts GenOpts, variantCount int) *WorldSpec {
 				fmt.Fprintf(&b, "\t%s %s\n", f.name, t)
 			}
 			if nearMiss && domain {
-				b.WriteString("\tNote string\n\tRemark1 int\n")
+				b.WriteString("\tMemo string\n\tRemark1 int\n")
 			} else if nearMiss {
-				b.WriteString("\tNoteA string\n\tNoteB string\n\tRemark int\n\tRemark2 int\n")
+				b.WriteString("\tMemoA string\n\tMemoB string\n\tRemark int\n\tRemark2 int\n")
+			}
+			if getterTwin && domain {
+				b.WriteString("\tCaption string\n")
+			} else if getterTwin {
+				b.WriteString("\tLabel string\n")
 			}
 			b.WriteString("}\n\n")
+			if getterTwin && domain {
+				fmt.Fprintf(&b, "func (x %s) Label() string { return \"label\" }\n\n", d.name)
+			} else if getterTwin {
+				fmt.Fprintf(&b, "func (x %s) Caption() string { return \"caption\" }\n\n", d.name)
+			}
 			if domain && r.Chance(1, 3) {
 				fmt.Fprintf(&b, "func (x *%s) DisplayName() string { return \"n\" }\n\n", d.name)
 			}
@@ -225,6 +244,16 @@ func GenWorld(r *Rng, opts GenOpts, variantCount int) *WorldSpec {
 	}
 	w.Files["mod/domain/domain.go"] = render("domain", true)
 	w.Files["mod/model/model.go"] = render("model", false)
+	if getterTwin {
+		feat["getter-twins-across-files"] = true
+		dt, mt := "package domain\n\n", "package model\n\n"
+		for _, d := range defs {
+			dt += fmt.Sprintf("// Deprecated: use Label.\nfunc (x %s) LABEL() string { return \"LABEL\" }\n\n", d.name)
+			mt += fmt.Sprintf("// Deprecated: use Caption.\nfunc (x %s) CAPTION() string { return \"CAPTION\" }\n\n", d.name)
+		}
+		w.Files["mod/domain/"+twinFile] = dt
+		w.Files["mod/model/"+twinFile] = mt
+	}
 	w.Files["mod/domain/probe.go"] = "package domain\n\ntype Probe struct {\n\tID   int64\n\tOnly string\n}\n"
 	w.Files["mod/model/probe.go"] = "package model\n\ntype Probe struct {\n\tID    int64\n\tOther string\n\tThird int\n}\n"
 
@@ -417,6 +446,17 @@ func GenWorld(r *Rng, opts GenOpts, variantCount int) *WorldSpec {
 				}
 				if vr.Chance(1, 5) {
 					m.notations = append(m.notations, ":getter")
+				}
+				if getterTwin && mcount%2 == 0 {
+					for _, n := range []string{":getter", ":case:off"} {
+						has := false
+						for _, x := range m.notations {
+							has = has || x == n
+						}
+						if !has {
+							m.notations = append(m.notations, n)
+						}
+					}
 				}
 				if opts.Rich && vr.Chance(1, 8) {
 					// notations that are reserved but not implemented (today: a line on stdout);
